@@ -24,7 +24,9 @@ SOURCES = ["cli", "sfile", "user"]        # priority order, packaged defaults be
 WRONG = {"bool": ["yes please", 7, 0, 1, [True], {"a": 1}, 1.5, "true"],
          "str": [7, [1, 2], {"a": "b"}, True, 1.5],
          "list": [7, {"a": 1}, True],
-         "union": [5, {"a": 1}, True],
+         # (the exclude patterns are declared as a list, not as a whitespace-separated string sequence: a scalar string is a
+         #  wrong type there -- taking it apart character by character least of all)
+         "union": [5, {"a": 1}, True, "z*", "build docs/"],
          "dir": [12, [1], {"a": 1}, True]}
 
 
@@ -51,8 +53,8 @@ class Prop(BaseProp):
             "captured by a wrapper on cminx.document (the observe_at boundary) and compared with a 4-source layering "
             "model whose defaults are read from config_default.yaml. Distinct = (option, subset) resp. stack shape; "
             "non-trivial = at least one non-default source sets a value")
-    ASSUMPTIONS = ["a plain string for a list-typed option is not treated as 'wrong type' (confuse documents "
-                   "whitespace-separated strings as sequences)", "the logging section is outside the property",
+    ASSUMPTIONS = ["a plain string for rst.headers is not treated as 'wrong type' (the option is declared as a confuse string "
+                   "sequence, for which whitespace-separated strings are documented); for input.exclude_filters (declared as a list) it is", "the logging section is outside the property",
                    "HOME and XDG_CONFIG_DIRS point into the sandbox so no real user file interferes"]
     HEADLINE = ["settings_captured", "options_compared", "subset_cases", "random_stacks", "relative_dir_cases",
                 "wrong_type_cases", "wrong_type_rejected", "multi_input_invocations"]
